@@ -43,11 +43,12 @@ def gen_case(rng, big=False, bias=None):
         r = rng.below(20)
         sig = rng.choice(sigs)
         if r < 6: return ("start", h, sig)
-        if r < 11: return ("oneshot", h, sig)
-        if r < 16: return ("stop", h)
-        if r < 18: return ("close", h)
-        if r < 19: return ("start", h, rng.choice([0, 9]))
-        return ("oneshot", h, sig)
+        if r < 10: return ("oneshot", h, sig)
+        if r < 14: return ("stop", h)
+        if r < 16: return ("close", h)
+        if r < 18: return ("unref", h)
+        if r < 19: return ("ref", h)
+        return ("start", h, rng.choice([0, 9, sig]))
     n = rng.range(6, 40 if not big else 90)
     for _ in range(n):
         r = rng.below(20)
@@ -58,6 +59,8 @@ def gen_case(rng, big=False, bias=None):
             if o[0] in ("start", "oneshot"):
                 lines.append(f"{o[0]} h{o[1]} {o[2]}")
                 if o[2] in SIGS: st[o[1]] = o[2]
+            elif o[0] in ("ref", "unref"):
+                lines.append(f"{o[0]} h{o[1]}")
             else:
                 lines.append(f"{o[0]} h{o[1]}"); st[o[1]] = 0
         elif r < 13:
@@ -94,8 +97,20 @@ def gen_mt_case(rng):
         r = rng.below(20); h = rng.below(nh); sig = rng.choice(sigs)
         if r < 4: lines.append(f"start h{h} {sig}"); st[h] = sig
         elif r < 8: lines.append(f"oneshot h{h} {sig}"); st[h] = sig
-        elif r < 10: lines.append(f"stop h{h}"); st[h] = 0
+        elif r < 9: lines.append(f"stop h{h}"); st[h] = 0
+        elif r < 10: lines.append(f"unref h{h}" if rng.chance(2, 3) else f"ref h{h}")
         elif r < 11: lines.append(f"close h{h}"); st[h] = 0
+        elif r < 14:
+            # overlapping calls on two loops; biased to "stop a watcher | start another on the same signal"
+            others = [j for j in range(nh) if lo[j] != lo[h]]
+            if not others: continue
+            h2 = rng.choice(others)
+            s1 = st[h] if st[h] and rng.chance(2, 3) else sig
+            op1 = rng.choice([f"stop h{h}", f"stop h{h}", f"start h{h} {sig}", f"oneshot h{h} {sig}", f"close h{h}"])
+            op2 = rng.choice([f"start h{h2} {s1}", f"start h{h2} {s1}", f"oneshot h{h2} {s1}", f"stop h{h2}"])
+            lines.append(f"race {op1} | {op2}")
+            for o in (op1, op2):
+                f = o.split(); st[int(f[1][1:])] = int(f[2]) if len(f) > 2 else 0
         else:
             live = [x for x in st.values() if x]
             lines.append(f"raise {rng.choice(live) if live else sig}")
@@ -177,6 +192,9 @@ class Mon:
         def spec_op(w, in_cb_of=None, was_os=False):
             op = w[0]; h = int(w[1])
             x = H[h]
+            if op in ("ref", "unref"):
+                if x["closed"]: return None
+                x["ref"] = op == "ref"; return 0
             if x["closing"]: return None
             if op in ("start", "oneshot"):
                 before = (x["sig"], x["inc"])
@@ -226,6 +244,9 @@ class Mon:
                     else:
                         self.v("active-mismatch", f"h{h} uv_is_active={int(act)} but it should be {'watching ' + str(x['sig']) if x['sig'] else 'stopped'} after `{after}`")
                         x["sig"] = int(f[2]) if act else 0
+                if len(f) > 5 and (f[5] == "r") != x["ref"]:
+                    self.v("ref-flag", f"h{h} uv_has_ref={f[5]} but the last ref/unref call says {'r' if x['ref'] else 'u'} after `{after}`")
+                    x["ref"] = f[5] == "r"
                 if int(f[3]) != x["caught"]:
                     self.v("fanout-caught", f"h{h} caught_signals={f[3]}, deliveries while watching={x['caught']} after `{after}`")
                     x["caught"] = int(f[3])
@@ -297,7 +318,8 @@ class Mon:
                 if not e["done"]: passed_over(e, L)
             exp[L] = []
         def loop_alive(L):
-            return any(x["loop"] == L and (x["sig"] or (x["closing"] and not x["closed"])) for x in H.values())
+            # uv_run returns at once unless a started *referenced* handle or a closing handle exists
+            return any(x["loop"] == L and ((x["sig"] and x["ref"]) or (x["closing"] and not x["closed"])) for x in H.values())
         def on_close_cb(L, h, undisp):
             x = H[h]
             if not x["closing"] or x["closed"]: self.v("close-cb", f"close_cb for h{h} which is not closing / already closed")
@@ -335,14 +357,24 @@ class Mon:
             if mt and w[0] == "init":
                 nl = int(w[1])
                 H = {i: dict(loop=int(l), sig=0, os=False, inc=0, closing=False, closed=False, caught=0,
-                             pending_at_restart=False, own_cb_restart=False, got_cb=-1) for i, l in enumerate(w[2:])}
+                             pending_at_restart=False, own_cb_restart=False, got_cb=-1, ref=True) for i, l in enumerate(w[2:])}
                 exp = {L: [] for L in range(nl)}
                 mt_runall(cmd)
-            elif mt and w[0] in ("start", "oneshot", "stop", "close"):
+            elif mt and w[0] in ("start", "oneshot", "stop", "close", "ref", "unref"):
                 r = next(it)
                 e = spec_op([w[0], w[1][1:]] + w[2:])
                 want = "ret skip" if e is None else f"ret {e}"
                 if r != want: self.v("retcode", f"`{cmd}` answered `{r}`, expected `{want}`")
+                mt_runall(cmd)
+            elif mt and w[0] == "race":
+                # two API calls on handles of different loops, the first one held at its sigaction() call while
+                # the second one is issued: libuv serialises them under the signal lock, first then second
+                k = w.index("|")
+                for part in (w[1:k], w[k + 1:]):
+                    r = next(it)
+                    e = spec_op([part[0], part[1][1:]] + part[2:])
+                    want = "ret skip" if e is None else f"ret {e}"
+                    if r != want: self.v("retcode", f"`{' '.join(part)}` (in `{cmd}`) answered `{r}`, expected `{want}`")
                 mt_runall(cmd)
             elif mt and w[0] == "raise":
                 o = next(it)
@@ -354,12 +386,12 @@ class Mon:
             elif w[0] == "init":
                 nl = int(w[1])
                 H = {i: dict(loop=int(l), sig=0, os=False, inc=0, closing=False, closed=False, caught=0,
-                             pending_at_restart=False, own_cb_restart=False, got_cb=-1) for i, l in enumerate(w[2:])}
+                             pending_at_restart=False, own_cb_restart=False, got_cb=-1, ref=True) for i, l in enumerate(w[2:])}
                 exp = {L: [] for L in range(nl)}
                 check_obs(cmd)
             elif w[0] == "script":
                 scripts[int(w[1])] = [x.split(":") for x in w[2:]]
-            elif w[0] in ("start", "oneshot", "stop", "close"):
+            elif w[0] in ("start", "oneshot", "stop", "close", "ref", "unref"):
                 r = next(it)
                 e = spec_op([w[0], w[1][1:]] + w[2:])
                 want = "ret skip" if e is None else f"ret {e}"
@@ -447,6 +479,10 @@ def run_case(ctx, exe, c, model=True, stats=None):
     rc, il, err = run_impl(ctx, exe, c)
     ctx.count()
     if rc != 0:
+        # what the monitors saw before the harness died comes first (the property-level reason), then the crash
+        for sig, text in monitor(c, il):
+            if sig not in ("log-short", "protocol") and sig not in ctx.known:
+                ctx.violation(sig, f"C13: {text}", {"ops": c})
         kind = "crash-asan" if "AddressSanitizer" in err else "crash"
         ctx.violation(kind, f"signal harness exited {rc}: {err[-900:]}", {"ops": shrink(ctx, exe, c, kind)})
         return False
@@ -485,6 +521,12 @@ def run_case(ctx, exe, c, model=True, stats=None):
     return True
 
 
+MT_WITNESSES = [
+    ["init 2 0 1", "start h0 10", "race stop h0 | start h1 10", "raise 10", "race stop h1 | oneshot h0 10", "raise 10",
+     "start h1 10", "race stop h1 | stop h0", "close h0", "close h1"],
+    ["init 2 0 1 0", "oneshot h0 12", "start h1 12", "race stop h1 | start h2 12", "raise 12", "raise 12", "close h0", "close h1", "close h2"],
+]
+
 WITNESSES = [
     ["init 1 0", "start h0 10", "raise 10", "stop h0", "start h0 10", "run 0"],                       # L10
     ["init 1 0", "start h0 10", "raise 10", "stop h0", "oneshot h0 12", "run 0"],                     # stale msg stops one-shot
@@ -493,6 +535,10 @@ WITNESSES = [
      "close h0", "close h1", "close h2", "run 0", "run 1"],
     ["init 1 0 0", "start h0 10", "start h1 10", "runraise 0 10 close:0", "run 0", "run 0"],       # finish_close re-queue
     ["init 1 0", "oneshot h0 10", "stop h0", "start h0 10", "raise 10", "raise 10", "run 0", "raise 10", "run 0"],   # L2 (fixed)
+    # unreferenced handles: same deferral of close_cb, loop not kept alive by them
+    ["init 1 0 0", "start h0 10", "start h1 10", "unref h0", "runraise 0 10 close:0", "run 0", "run 0"],
+    ["init 1 0 0", "start h0 10", "start h1 10", "runraise 0 10 close:0 unref:0", "run 0", "run 0"],
+    ["init 2 0 1", "start h0 10", "unref h0", "raise 10", "run 0", "start h1 10", "run 0", "ref h0", "run 0", "close h0", "close h1", "run 0", "run 1"],
 ]
 
 
@@ -539,8 +585,10 @@ def run(ctx):
             if not run_case(ctx, exe, c, stats=stats): ok = False; break
     if ok and mexe:
         # loops on their own threads, handler on whichever thread the kernel picks: monitors only
+        for c in MT_WITNESSES:
+            ok = run_mt_case(ctx, mexe, c, stats) and ok
         for i in range(ctx.scale(15, 600)):
-            if not run_mt_case(ctx, mexe, gen_mt_case(rng), stats): ok = False; break
+            if not ok or not run_mt_case(ctx, mexe, gen_mt_case(rng), stats): ok = False; break
         ctx.notes["multi_thread_cases"] = ctx.scale(15, 600)
         ctx.notes["multi_thread_signal_callbacks"] = stats.get("_mtcb", 0)
     ctx.notes["monitor_signatures_seen"] = {k: v for k, v in stats.items() if not k.startswith("_")}
